@@ -193,6 +193,8 @@ class ObjectCodeGenerator:
 
         result.add_line('old_string_sanitization_mode: bool = writer.string_sanitization_mode')
         result.begin_control_flow('try')
+        if self._data.serialize.empty:
+            result.add_line('pass')
         result.add_code_block(self._data.serialize)
         result.next_control_flow('finally')
         result.add_line('writer.string_sanitization_mode = old_string_sanitization_mode')
